@@ -24,6 +24,7 @@
 #include "path.h"
 #include "pathmatch.h"
 #include "utils.h"
+#include "verif_trace.h"
 #include "token.h"
 #include "tokenlist.h"
 #include "settings.h"
@@ -57,6 +58,19 @@ SuppressionList::ErrorMessage SuppressionList::ErrorMessage::fromErrorMessage(co
     ret.macroNames = macroNames;
     return ret;
 }
+
+#ifdef DANMAR_CPPCHECK_VERIF
+static std::string verifKey(const SuppressionList::Suppression& s)
+{
+    return verif::supprKey(s);
+}
+static std::string verifSupprFields(const SuppressionList::Suppression& s)
+{
+    return verif::kv("key", verifKey(s)) + verif::kb("inl", s.isInline) + verif::kb("local", s.isLocal()) + verif::kb("wild", s.isWildcard()) +
+           verif::kv("type", static_cast<int>(s.type)) + verif::kv("lb", s.lineBegin) + verif::kv("le", s.lineEnd) + verif::kv("macro", s.macroName) +
+           verif::kb("checked", s.checked) + verif::kb("matched", s.matched) + verif::kv("sid", s.errorId) + verif::kv("sfile", s.fileName) + verif::kv("sline", s.lineNumber);
+}
+#endif
 
 static bool isAcceptedErrorIdChar(char c)
 {
@@ -288,6 +302,10 @@ std::string SuppressionList::addSuppression(SuppressionList::Suppression suppres
     // Check if suppression is already in list
     auto foundSuppression = std::find_if(mSuppressions.begin(), mSuppressions.end(),
                                          std::bind(&Suppression::isSameParameters, &suppression, std::placeholders::_1));
+#ifdef DANMAR_CPPCHECK_VERIF
+    if (foundSuppression != mSuppressions.end())
+        VERIF_EVT("SupprAdd", verif::kv("list", verif::addr(this)) + verifSupprFields(suppression) + verif::kv("res", "exists") + verif::kb("held", verif::held(mSuppressionsSync)));
+#endif
     if (foundSuppression != mSuppressions.end()) {
         return "suppression '" + suppression.toString() + "' already exists";
     }
@@ -310,6 +328,9 @@ std::string SuppressionList::addSuppression(SuppressionList::Suppression suppres
     if (!isValidGlobPattern(suppression.fileName))
         return "Failed to add suppression. Invalid glob pattern '" + suppression.fileName + "'.";
 
+#ifdef DANMAR_CPPCHECK_VERIF
+    VERIF_EVT("SupprAdd", verif::kv("list", verif::addr(this)) + verifSupprFields(suppression) + verif::kv("res", "added") + verif::kb("held", verif::held(mSuppressionsSync)));
+#endif
     mSuppressions.push_back(std::move(suppression));
 
     return "";
@@ -332,6 +353,9 @@ bool SuppressionList::updateSuppressionState(const SuppressionList::Suppression&
     // Check if suppression is already in list
     auto foundSuppression = std::find_if(mSuppressions.begin(), mSuppressions.end(),
                                          std::bind(&Suppression::isSameParameters, &suppression, std::placeholders::_1));
+#ifdef DANMAR_CPPCHECK_VERIF
+    VERIF_EVT("SupprUpdate", verif::kv("list", verif::addr(this)) + verifSupprFields(suppression) + verif::kb("found", foundSuppression != mSuppressions.end()) + verif::kb("held", verif::held(mSuppressionsSync)));
+#endif
     if (foundSuppression != mSuppressions.end()) {
         if (suppression.checked)
             foundSuppression->checked = true;
@@ -475,14 +499,33 @@ bool SuppressionList::isSuppressed(const SuppressionList::ErrorMessage &errmsg, 
     // TODO: handle unmatchedPolyspaceSuppression?
     const bool unmatchedSuppression(errmsg.errorId == "unmatchedSuppression");
     bool returnValue = false;
+#ifdef DANMAR_CPPCHECK_VERIF
+    std::string verifRes;
+    const bool verifOn = VERIF_ACTIVE();
+#endif
     for (Suppression &s : mSuppressions) {
         if (!global && !s.isLocal())
             continue;
         if (unmatchedSuppression && s.errorId != errmsg.errorId)
             continue;
+#ifdef DANMAR_CPPCHECK_VERIF
+        if (verifOn) {
+            const Suppression::Result r = s.isSuppressed(errmsg);
+            if (r != Suppression::Result::None) {
+                if (!verifRes.empty())
+                    verifRes += ",";
+                verifRes += "[" + verif::esc(verifKey(s)) + "," + (r == Suppression::Result::Matched ? "\"M\"" : "\"C\"") + "]";
+            }
+        }
+#endif
         if (s.isMatch(errmsg))
             returnValue = true;
     }
+#ifdef DANMAR_CPPCHECK_VERIF
+    if (verifOn)
+        VERIF_EVT("SupprQuery", verif::kv("list", verif::addr(this)) + verif::kv("id", errmsg.errorId) + verif::kv("file", errmsg.getFileName()) + verif::kv("line", errmsg.lineNumber) +
+                  verif::kb("global", global) + verif::kb("ret", returnValue) + verif::kraw("res", "[" + verifRes + "]") + verif::kb("held", verif::held(mSuppressionsSync)));
+#endif
     return returnValue;
 }
 
@@ -631,6 +674,29 @@ std::list<SuppressionList::Suppression> SuppressionList::getSuppressions() const
 void SuppressionList::markUnmatchedInlineSuppressionsAsChecked(const TokenList &tokenlist) {
     std::lock_guard<std::mutex> lg(mSuppressionsSync);
 
+#ifdef DANMAR_CPPCHECK_VERIF
+    struct VerifMark {
+        SuppressionList& l;
+        std::list<Suppression>& ss;
+        std::vector<bool> before;
+        VerifMark(SuppressionList& l_, std::list<Suppression>& ss_) : l(l_), ss(ss_) {
+            for (const auto& s : ss)
+                before.push_back(s.checked);
+        }
+        ~VerifMark() {
+            std::size_t i = 0;
+            std::string keys;
+            for (const auto& s : ss) {
+                if (!before[i++] && s.checked) {
+                    if (!keys.empty())
+                        keys += ",";
+                    keys += verif::esc(verifKey(s));
+                }
+            }
+            VERIF_EVT("SupprMark", verif::kv("list", verif::addr(&l)) + verif::kraw("keys", "[" + keys + "]") + verif::kb("held", verif::held(l.mSuppressionsSync)));
+        }
+    } verifMark(*this, mSuppressions);
+#endif
     int currLineNr = -1;
     int currFileIdx = -1;
     for (const Token *tok = tokenlist.front(); tok; tok = tok->next()) {
